@@ -397,7 +397,7 @@ def evaluate(cases, results):
         elif 'tx' in r:
             bd.append((i, r_build(c, r)))
     shards, maps = [], []
-    for kind, lst, step in (('fn', fn, 250), ('build', bd, 40)):
+    for kind, lst, step in (('fn', fn, 160), ('build', bd, 30)):
         for k in range(0, len(lst), step):
             part = lst[k:k + step]
             shards.append(render(kind, [(j, t) for j, (_, t) in enumerate(part)]))
@@ -440,8 +440,8 @@ def nontrivial(c, r):
 
 
 def correspond(ctx, n=None):
-    nb = n or ctx.n(420, 12000)
-    nf = (n or ctx.n(1500, 60000))
+    nb = n or ctx.n(380, 12000)
+    nf = (n or ctx.n(1250, 60000))
     cases = gen_fn_cases(ctx.rng, nf) + gen_build_cases(ctx.rng, nb)
     results = C.run_impl('fee_driver', {'cases': cases})
     mism, ofail, errs = evaluate(cases, results)
@@ -465,7 +465,7 @@ def correspond(ctx, n=None):
     fails = [f for f in fails if f['region'] not in KNOWN_REGIONS]
     built = [(c, r) for c, r in zip(cases, results) if c['k'] == 'build' and 'tx' in r]
     wit_hist, in_hist, out_hist, wcross = {}, {}, {}, {'fee_placeholder_wider_than_fee': 0, 'fee_2^8': 0, 'fee_2^16': 0, 'fee_2^32': 0,
-                                                      'change_coin_9_bytes': 0, 'omitted_scripts': 0, 'ref_bytes>0': 0, 'exunits>0': 0}
+                                                      'change_coin_9_bytes': 0, 'coin_width_shrunk_after_pass2': 0, 'omitted_scripts': 0, 'ref_bytes>0': 0, 'exunits>0': 0}
     for c, r in built:
         wit_hist[r['real_wit']] = wit_hist.get(r['real_wit'], 0) + 1
         in_hist[r['n_inputs']] = in_hist.get(r['n_inputs'], 0) + 1
@@ -480,6 +480,8 @@ def correspond(ctx, n=None):
         if any(k >= 2 ** 32 for k in (r['calls'][-1][2] if r['calls'] else [])):
             wcross['change_coin_9_bytes'] += 1
         wcross['omitted_scripts'] += r['omitted'] > 0
+        wcross['exunits>0'] += r.get('mem', 0) + r.get('steps', 0) > 0
+        wcross['coin_width_shrunk_after_pass2'] += bool(r['calls']) and sum(map(width, r['calls'][-1][2])) > sum(map(width, r['final_coins']))
         wcross['ref_bytes>0'] += r['ref_ledger'] > 0
     distinct = len({C.canon_hash([c, r.get('tx', r.get('fee'))]) for c, r in zip(cases, results) if nontrivial(c, r)})
     return dict(
@@ -495,12 +497,12 @@ def correspond(ctx, n=None):
         samples=[cases[0], cases[nf + 4] if len(cases) > nf + 4 else cases[-1]],
         kinds=hist, scenario_tags=tags, refused_by_builder=errk, witnesses=wit_hist, inputs=in_hist, outputs=out_hist,
         boundary_hits=wcross, built=len(built), known_region_hits=known_hits, known_regions=KNOWN_REGIONS,
-        few_dozen_bytes=48,
+        few_dozen_bytes=24,
         compared='function level: generated Gallina of utils.py vs implementation, exact incl. exception kind; builder level: every '
                  'recorded _estimate_fee = generated fee at the recorded fake size (+buffer), placeholder = max(previous fee, '
                  'generated max fee + buffer), final length (length of the signed bytes inside Coq) = last fake size with fee/coin '
                  'widths replaced minus omitted script bytes, coins changed by exactly the fee difference; oracle: ledger min fee '
-                 '(decoded execution units, all reference-script bytes) <= body fee <= min + a*(48+omitted) + 2 + buffer',
+                 '(decoded execution units, all reference-script bytes) <= body fee <= min + a*(24+omitted) + 2 + buffer',
         mismatches=[pack(i) for i in sorted(mism)[:20]],
         oracle_fail=fails[:50],
     )
